@@ -102,6 +102,11 @@ func (a *Array) MarshalJSONBuffer(dst []byte) ([]byte, error) {
 			return nil, err
 		}
 		if t == TypeNone {
+			if i.t == TagArrayEnd {
+				// Empty array, AdvanceIter has consumed the end tag.
+				dst = append(dst, ']')
+				return dst, nil
+			}
 			break
 		}
 		dst, err = elem.MarshalJSONBuffer(dst)
